@@ -127,7 +127,8 @@ impl MonitorSet {
                     if self.inj("flow_control") && m.index >= 3 {
                         lt += 1;
                     }
-                    if post.term_at(m.index) != Some(lt) && !(m.index + 1 < post.first) {
+                    let known = post.term_at(m.index);
+                    if (known.is_some() && known != Some(lt)) || (known.is_none() && m.index >= post.first) {
                         self.fail("append-anchor", format!("leader {} of term {} emitted MsgAppend to {} anchored at (index {}, term {}) but its log (first index {}, boundary term {}, last {}) has term {:?} there", id, post.term, m.to, m.index, lt, post.first, post.bterm, post.last_index, post.term_at(m.index)));
                         return;
                     }
